@@ -84,8 +84,17 @@ def composed():
     return out
 
 
+DOC_SHAPES = ["a plain string doc\n", ["two", " lines "], {"description": "text"}, {"description": ["d"], "examples": [" e "]},
+              {"examples": ["only"]}]
+
+
 def schemas(tier):
     out = [("schema", (r,)) for r in rule_terms()]
+    # rules carrying a doc block (the constructor stores it as given): equality after the round trip must not depend on it
+    for di, doc in enumerate(DOC_SHAPES):
+        for r in POOL12[di::5]:
+            out.append(("schema", (T.rule(r[1], r[2], r[3], doc),)))
+        out.append(("schema", (T.rule(POOL12[1][1], POOL12[1][2], POOL12[1][3], doc), POOL12[4])))
     out += composed()
     out += [("schema", pair) for pair in itertools.product(POOL12, repeat=2)]
     if tier == "thorough":
